@@ -151,6 +151,8 @@ MUTANTS = [
     m("C16-run-cmd-add-in-replace", "C16", "C16.R2", H, 'return self._run_cmd("replace", key, False, *args, **kwargs)', 'return self._run_cmd("add", key, False, *args, **kwargs)'),
     m("C16-retrying-strip-kwargs", "C16", "C16.R4", R, "            name, self._client.__getattribute__(name), *args, **kwargs\n", "            name, self._client.__getattribute__(name), *args\n"),
     m("C16-no-encoding", "C16", "C16.R3", B, "            encoding=self.encoding,\n            tls_context=self.tls_context,\n        )", "            tls_context=self.tls_context,\n        )"),
+    m("C16-pooled-raw-serde", "C16", "C16.R3", B, "        self.serde = serde or LegacyWrappingSerde(serializer, deserializer)", "        self.serde = serde", nth=2),
+    m("C16-pooled-deserializer-dropped", "C16", "C16.R3", B, "        self.serde = serde or LegacyWrappingSerde(serializer, deserializer)", "        self.serde = serde or LegacyWrappingSerde(serializer, None)", nth=2),
     m("C16-silent-positional", "C16", "", B, "            return client.delete(key, noreply=noreply)", "            return client.delete(key, noreply)", kind="silent"),
     # ---------------- C17
     m("C17-gt", "C17", "C17.R2", R, "attempt >= self._attempts - 1", "attempt > self._attempts - 1"),
@@ -184,9 +186,13 @@ def _apply(src, mu):
     olds = mu["old"] if isinstance(mu["old"], (tuple, list)) else [mu["old"]]
     news = mu["new"] if isinstance(mu["new"], (tuple, list)) else [mu["new"]]
     for o, n in zip(olds, news):
-        if src.count(o) < 1:
+        nth = mu.get("nth", 1)
+        if src.count(o) < nth:
             return None
-        src = src.replace(o, n, 1)
+        at = -1
+        for _ in range(nth):
+            at = src.index(o, at + 1)
+        src = src[:at] + n + src[at + len(o):]
     return src
 
 
